@@ -74,7 +74,8 @@ class WorldC11(World):
     STATE_RULE = 'per object: (class, nesting depth, number of completed encode/decode cycles bucket)'
     PROBES = ('decode-same-dict-twice', 'cycles>=3', 'nested-depth>=3', 'shared-species-in-reactions', 'statmech-with-references',
               'statmech-with-misc-models', 'empirical-with-cov-model', 'edit-then-encode', 'via-text', 'via-dict', 'nasa9-segments-not-ascending', 'scrambled-first-decode',
-              'references-offsets-cleared', 'decode-in-a-fresh-interpreter') + \
+              'references-offsets-cleared', 'decode-in-a-fresh-interpreter', 'evaluated-before-encoding',
+              'refused-mutator-before-encoding', 'nested-species-edited') + \
         tuple('class-' + k for k in ALL_KINDS)
     REAL = ('pmutt.io.json (pmuttEncoder, json_to_pmutt, type_to_class, remove_class)', 'to_dict/from_dict of every class built',
             'json module', 'every get_* getter of the built objects')
@@ -253,6 +254,13 @@ class WorldC11(World):
         kind = rng.choice(kinds)
         if sw.get('cold') and not self.cold_done and rng.random() < 0.35:
             return {'c': c, 'op': 'cold_decode', 'args': {'id': k}}
+        if self.meta[k]['kind'] in ('Nasa', 'Nasa9', 'Shomate') and rng.random() < 0.2:
+            # the object has a past: it was evaluated somewhere else before it is encoded
+            return {'c': c, 'op': 'edit', 'args': {'id': k, 'attr': 'touch()', 'value': rng.choice([300.0, 1500.0, 2500.0, 5000.0])}}
+        if self.meta[k]['kind'] == 'PiecewiseCovEffect' and rng.random() < 0.3:
+            return {'c': c, 'op': 'edit', 'args': {'id': k, 'attr': 'pop(0)', 'value': None}}
+        if self.meta[k]['kind'] in ('Reaction', 'ChemkinReaction', 'SurfaceReaction', 'Reactions') and rng.random() < 0.3:
+            return {'c': c, 'op': 'edit', 'args': {'id': k, 'attr': 'species.name', 'value': rng.choice(['X', 'renamed*', 'q1'])}}
         if self.meta[k].get('has_refs') and rng.random() < 0.25:
             return {'c': c, 'op': 'edit', 'args': {'id': k, 'attr': 'clear_offset()', 'value': None}}
         if kind == 'cycle':
@@ -410,6 +418,14 @@ class WorldC11(World):
     def observe(self, obj):
         """{label: outcome} for every get_* whose required parameters the pool can fill, plus identifying attributes."""
         out = {}
+        # (first of all, before anything else has been asked of the object: a temperature on a segment boundary)
+        for nm in ('get_CpoR', 'get_HoRT', 'get_SoR'):
+            fn = getattr(obj, nm, None)
+            if callable(fn) and type(obj).__name__ in ('Nasa', 'Nasa9', 'Shomate'):
+                try:
+                    out[nm + '@1000K'] = _plain(fn(T=1000.0))       # a segment boundary of the generated species
+                except Exception as e:
+                    out[nm + '@1000K'] = ('EXC', type(e).__name__)
         for nm in sorted(n for n in dir(type(obj)) if n.startswith('get_')):
             fn = getattr(obj, nm, None)
             if not callable(fn):
@@ -454,13 +470,6 @@ class WorldC11(World):
                 ident['segments-in-order'] = [[float(n.T_low), float(n.T_high)] for n in nasas]
             except Exception as e:
                 ident['segments-in-order'] = ('EXC', type(e).__name__)
-        for nm in ('get_CpoR', 'get_HoRT', 'get_SoR'):
-            fn = getattr(obj, nm, None)
-            if callable(fn) and type(obj).__name__ in ('Nasa', 'Nasa9', 'Shomate'):
-                try:
-                    out[nm + '@1000K'] = _plain(fn(T=1000.0))       # a segment boundary of the generated species
-                except Exception as e:
-                    out[nm + '@1000K'] = ('EXC', type(e).__name__)
         to_string = getattr(obj, 'to_string', None)
         if callable(to_string):
             try:
@@ -524,6 +533,42 @@ class WorldC11(World):
             ctx.probe('references-offsets-cleared')
             m['edited'] = True
             return 'cleared'
+        if name == 'edit' and a['attr'] == 'touch()':
+            for nm in ('get_CpoR', 'get_HoRT', 'get_SoR'):
+                fn = getattr(obj, nm, None)
+                if callable(fn):
+                    try:
+                        fn(T=a['value'])
+                    except Exception:
+                        pass
+            ctx.probe('evaluated-before-encoding')
+            return 'touched'
+        if name == 'edit' and a['attr'] == 'pop(0)':
+            if not callable(getattr(obj, 'pop', None)):
+                raise Skip()
+            try:
+                obj.pop(0)                   # documented to be refused: the first breakpoint cannot be removed
+            except ValueError:
+                ctx.probe('refused-mutator-before-encoding')
+            m['edited'] = True
+            return 'refused'
+        if name == 'edit' and a['attr'] == 'species.name':
+            rx = obj
+            if kind == 'Reactions':
+                rx = obj.reactions[0] if getattr(obj, 'reactions', None) else None
+            sp = (getattr(rx, 'reactants', None) or [None])[0] if rx is not None else None
+            if sp is None or not hasattr(sp, 'name'):
+                raise Skip()
+            # a nested species is edited in place after the reaction may already have been encoded once
+            sp.name = a['value']
+            if hasattr(sp, 'notes'):
+                try:
+                    sp.notes = 'edited after the first encoding'
+                except Exception:
+                    pass
+            ctx.probe('nested-species-edited')
+            m['edited'] = True
+            return 'nested edit'
         if name == 'cold_decode':
             return self._cold_decode(obj, kind)
         if name == 'edit':
